@@ -11,11 +11,14 @@ from .. import loop_common
 class Prop:
     id = "C04"
     lean_module = "MuduoVerif.Props.C04"
-    gen_engines = ["Loop"]
+    gen_engines = ["Loop", "LoopSkel"]
     drivers = ["loop"]
     technique = ("Lean 4 invariant proofs over a thread-indexed transition system of EventLoop's task queue (any number of "
-                 "threads, programs with unbounded nesting, all schedules; no poll timeout in the model, so promptness is a "
-                 "safety property) + T1 extraction of the wake guard, the inline test, the swap, the shape of the drain after "
+                 "threads, programs with unbounded nesting, all schedules; functor OBJECTS included: the destructor of what a "
+                 "functor owns is user code that runs on the loop thread when the object dies and may submit again; no poll "
+                 "timeout in the model, so promptness is a "
+                 "safety property) + T1 extraction of the wake guard, the inline test, the swap, the place where the batch of "
+                 "functor objects is destroyed relative to the reset of callingPendingFunctors_, the shape of the drain after "
                  "the `while` (none | once | until the queue is empty) and the statement order of loop() + T3: the real EventLoop under a deterministic scheduler compared event by event "
                  "with the model under the same interleaving + independent trace oracle (exactly once, order, thread, "
                  "inline-first, lost wake-up evaluated at every instant the loop is in poll)")
@@ -24,7 +27,12 @@ class Prop:
                   "FIFO); task bodies start on the loop thread only; runInLoop on the loop thread starts the task inside the "
                   "call ahead of everything queued; whenever the loop is in poll with a functor queued the eventfd is readable "
                   "or a submitter stands between its append and its wakeup() (no lost wake-up, including submissions from I/O "
-                  "handlers, from inside a drain and before loop()); a loop asleep with work queued is never all-blocked; when "
+                  "handlers, from inside a drain, from the destructor of a functor's captured state and before loop()); the "
+                  "functor objects of a batch die inside doPendingFunctors after the whole batch has run, in order, with "
+                  "callingPendingFunctors_ still set, so a queueInLoop() made by such a destructor is followed by a wake-up "
+                  "(dtor_queue_is_woken; negation witness for the earlier order — flag reset first — in which the loop ends "
+                  "asleep in poll with the functor queued and no thread able to move); the functor of an inline runInLoop() "
+                  "dies when the call returns; a loop asleep with work queued is never all-blocked; when "
                   "loop() has returned, every functor appended before its last test of the queue — by a foreign thread, by the "
                   "loop thread itself from a functor of the final drain, before or after quit() — has been started, in order "
                   "(executed = the first retMark appends; what is still queued was appended later by another thread); negation "
@@ -38,12 +46,17 @@ class Prop:
                   "scheduler and the harness, pthreads/eventfd/poll as documented. Timer callbacks are not a separate context: "
                   "they run from the timerfd channel's read handler, i.e. in the dispatch phase like the pipe handler used here.")
     rule = ("programs: 2..6 tasks whose bodies submit higher-numbered tasks (queueInLoop / runInLoop / a byte for the pipe "
-            "handler / quit), 0..3 submissions by the owner before loop(), 0..3 foreign threads with 1..4 calls each, quit() "
+            "handler / quit); in half of the programs 40 % of the tasks have a destructor body (`dtor <id>`: the functor "
+            "submitted for the task solely owns an object whose destructor submits 1..2 higher-numbered tasks, 12 % of these "
+            "programs call quit() from such a destructor); 0..3 submissions by the owner before loop(), 0..3 foreign threads with 1..4 calls each, quit() "
             "from a foreign thread, a task, before loop(), twice, or never; EventLoopThread programs (startLoop, submissions, "
             "destroy). Schedules: directed (`follow`: which thread performs the next visible event; random walks with "
             "stickiness 0.3..0.9), raw detsched schedules (preemption density 5..60 %), directed sweeps placing a submission / "
             "a quit after every number of loop-thread steps (also against a chain of functors that queue one another from inside "
-            "the drain after the `while`), and — thorough tier — every schedule of seven small programs "
+            "the drain after the `while`; a foreign submission after every number of steps of a loop thread that runs a batch, "
+            "destroys its functor objects — one destructor queues, one runs a task inline whose own functor queues when it "
+            "dies — and goes back to poll; a quit() at every step of a chain of destructor bodies that keep the final drain "
+            "going), and — thorough tier — every schedule of eight small programs "
             "within 1..3 preemptions (three of them aim at the silent switch point the harness offers immediately before "
             "handleRead()'s read of the eventfd: a foreign queueInLoop()+wakeup() inside that window, a further foreign "
             "submission once the loop is back in poll; the same three are enumerated first whenever an obligation or a tie "
@@ -63,7 +76,9 @@ class Prop:
     ]
     assumptions = [
         "poll() returns when a registered descriptor is readable (C09 is the property about the pollers)",
-        "task bodies terminate; loop() is called once per EventLoop (the model does not re-enter loop())",
+        "task bodies and destructor bodies terminate; loop() is called once per EventLoop (the model does not re-enter loop())",
+        "functors that are still queued when the EventLoop object itself is destroyed die unexecuted inside ~EventLoop; what "
+        "their destructors do then is not modelled (the harness skips such a destructor body: there is no loop to talk to)",
         "a functor appended after the loop's last test of the queue (`while (queueSize() > 0)` found it empty) is not run: "
         "the loop no longer runs",
         "termination of loop() after quit() needs the functors to stop queueing further functors eventually (generated "
